@@ -143,6 +143,22 @@ def message_chars_ok(i):
     return True
 
 
+NASTY_STRINGS = ["a{99999999999}", "x{1,99999999999999999999}", "(" * 200, "\\", "[", "9" * 400, "%", "(?P<", "1e400", "-" * 50, "T" * 50, "\x00", "",
+                 "12:" + "9" * 30, "{" * 30, "\ud800", "0" * 33, "2020-01-01T00:00:00." + "1" * 40 + "Z", "urn:uuid:" + "f" * 32, "a" * 5000, "\\" * 101, "[[[[[[[[", "(?i)" * 30, "\\N{", "\\u12"]
+
+
+def all_formats_total(i):
+    """EVERY format name registered in the process-wide checker (built-ins included, whatever they are) on a nasty string"""
+    from statham.schema.validation.format import format_checker
+    from vf.common import String, Element
+
+    s = NASTY_STRINGS[i]
+    for name in list(format_checker._callable_register):
+        if not total(String(format=name), s) or not total(Element(format=name, minLength=0), s):
+            return False
+    return True
+
+
 NAME_POOL = ["", "\x00", "\x01", "\x7f", "\x85", "\ue000", "\uffff", "\u0378", "\ud800", "a\x00b", " ", "\t", "\xa0", "\U0001d518", "\U0010ffff", "$", "-", "_", "1", "\u00b2", "class", "__dict__", "a b", "\u2028", "\u200d"]
 
 
@@ -265,6 +281,8 @@ def harnesses(ctx) -> List[H]:
                  timeout=200, group="numbers", message_stub=False, covers="integers around the 4300-digit int->str limit with REAL message formatting"))
     hs.append(mk("c10_message_format_chars", "i: int", [f"0 <= i < {len(FORMAT_CHARS)}"], f"return message_chars_ok(concretize_int(i, 0, {len(FORMAT_CHARS) - 1}))", timeout=200, group="messages",
                  message_stub=False, covers="names / literals / sub-schema reprs containing braces, percent signs and backslashes in REAL (un-stubbed) error messages of every rejecting keyword"))
+    hs.append(mk("c10_all_registered_formats", "i: int", [f"0 <= i < {len(NASTY_STRINGS)}"], f"return all_formats_total(concretize_int(i, 0, {len(NASTY_STRINGS) - 1}))", timeout=200, group="format",
+                 covers="every format name registered at run time x 25 hostile strings (huge quantifiers, long runs, unterminated groups, surrogates, 5000 chars)"))
     hs.append(mk("c10_parse_name_pool", "i: int, typed: bool", [f"0 <= i < {len(NAME_POOL)}"],
                  'a, b = NAME_POOL[i], NAME_POOL[(7 * i + 3) % len(NAME_POOL)]\nS = {"properties": {a: {"type": "integer"}, b: True}, "required": [b, a + b], "dependencies": {a: [b]}, "default": {a: b}, "enum": [{a: [b]}]}\nif typed: S.update({"type": "object", "title": "T" + a})\nreturn parse_total(S) and doc_total(S) and total(parse_s(S) if parse_ok(S) else parse_s(True), {a: 1, b: a})',
                  timeout=300, group="parse", covers="property / required / dependency names from a pool of unusual strings (unnamed code points, controls, private use, surrogates, non-BMP, empty)"))
